@@ -91,25 +91,54 @@ def bonds_of(arr):
     return sorted([int(x), int(y), int(t)] for x, y, t in arr.bonds.as_array().tolist())
 
 
+def _poke(src):
+    """The caller goes on working with the structure after set_structure(): every annotation array
+    and the coordinates are overwritten in place."""
+    np = _np()
+    for c in src.get_annotation_categories():
+        a = src.get_annotation(c)
+        if a.dtype.kind in "iu":
+            a += 100
+        elif a.dtype.kind == "f":
+            a += 1.5
+        elif a.dtype.kind == "b":
+            np.logical_not(a, out=a)
+        else:
+            a[:] = "Q"
+    src.coord += 7.0
+    if src.box is not None:
+        src.box *= 2.0
+
+
 def roundtrip(arr, fmt, extra, opt=None):
     """set_structure -> serialise -> parse -> get_structure. Returns (oc, result).
-    `opt` is the caller's extra_fields list; a caller reads many files with the same list."""
+    `opt` is the caller's extra_fields list; a caller reads many files with the same list.
+    With extra["poke"] the structure handed to set_structure is a copy that the caller overwrites in
+    place between set_structure() and write(): the file holds what was set (the text form converts at
+    set time, so text and binary form decode to the same result only if the binary form does too)."""
     import biotite.structure as struc
     import biotite.structure.io.pdbx as pdbx
+
+    poke = bool((extra or {}).get("poke"))
+    src = arr.copy() if poke else arr
 
     if opt is None:
         opt = list((extra or {}).get("opt", {})) + list((extra or {}).get("custom", {}))
     try:
         if fmt == "cif":
             f = pdbx.CIFFile()
-            pdbx.set_structure(f, arr, include_bonds=True, extra_fields=list((extra or {}).get("custom", {})))
+            pdbx.set_structure(f, src, include_bonds=True, extra_fields=list((extra or {}).get("custom", {})))
+            if poke:
+                _poke(src)
             buf = io.StringIO()
             f.write(buf)
             buf.seek(0)
             g = pdbx.CIFFile.read(buf)
         else:
             f = pdbx.BinaryCIFFile()
-            pdbx.set_structure(f, arr, include_bonds=True, extra_fields=list((extra or {}).get("custom", {})))
+            pdbx.set_structure(f, src, include_bonds=True, extra_fields=list((extra or {}).get("custom", {})))
+            if poke:
+                _poke(src)
             if fmt == "cbcif":
                 f = pdbx.compress(f)
             buf = io.BytesIO()
@@ -309,9 +338,15 @@ def gen_struct(item):
         k = rng.randint(1, len(names))
         for an in names[:k]:
             A.append([chain, rid, ins, rn, het, an])
+    # "grid" family: one long, regular coordinate column (which compress() can pack below the raw
+    # float bytes) with two outliers, a value that needs many decimals and a value of large magnitude;
+    # the columns (c, c/2, -c) carry the outlier with both signs
+    grid = rng.random() < item.get("p_grid", 0.07)
+    if grid:
+        A = [["A", i + 1, "", "GLY", False, "CA"] for i in range(rng.randint(40, 64))]
     n = len(A)
     B = None
-    if rng.random() < 0.85:
+    if rng.random() < 0.85 and not grid:
         B = []
         pairs = set()
         for _ in range(rng.randint(0, n)):
@@ -333,7 +368,14 @@ def gen_struct(item):
     extra = {"models": [[rng.randint(-9999, 9999) for _ in range(n)] for _ in range(nm)],
              "stack": nm > 1 or rng.random() < 0.2,
              "box": rng.choice([None, [10, 20, 30, 90, 90, 90], [12, 12, 15, 90, 90, 120], [8, 9, 10, 60, 90, 90]]),
-             "opt": {}, "custom": {}}
+             "opt": {}, "custom": {}, "poke": rng.random() < 0.4}
+    if grid:
+        step = rng.choice([0.25, 0.5, 1.0])
+        for cells in extra["models"]:
+            cells[:] = [step * i for i in range(n)]
+            i1, i2 = rng.sample(range(n), 2)
+            cells[i1] = rng.choice([0.0123456, 0.00390625, 1.2345678, 0.001, -0.0123456, 0.5])
+            cells[i2] = rng.choice([250.5, -250.5, 3000.25, -9000.125, 21474.5, -21474.75, 214.5, -215.0, 2200000.0])
     if rng.random() < 0.5:
         base_id = rng.choice([1, 120, 250, 32760, 65530, 99990])
         extra["opt"]["atom_id"] = ([base_id + i for i in range(n)] if rng.random() < 0.6
